@@ -209,6 +209,7 @@ theorem foldl_pres {α β : Type} (π : Stack → β) (f : Stack → α → Stac
     split
     · rw [foldl_pres base _ (fun s l => hf s l)]
     · rfl)]
+  rfl
 
 @[simp] theorem base_foundStop (s : Stack) (a : Addr) (k : SvcKey) : base (s.foundStop a k) = base s := by
   unfold foundStop; frame_cases
